@@ -568,6 +568,11 @@ def typed(ctx, c):
             c08.r085(ctx, f, fname, oa[0])
     c08.init_next(ctx)
     slice_type_rule(ctx)
+    # T4: the full type-rule table (accepted implies typed rests on type_check being the IR's typing rules)
+    from .. import typerules
+    from ..tables import T0
+    ctx.rule("T4", "for each of the 35 variants type_check enforces exactly the IR's typing constraints and returns the IR's result type; get_type returns that same type without checking")
+    typerules.check(ctx, T0(ctx))
 
 
 def _norm_cmp(n):
